@@ -26,7 +26,8 @@ import (
 var fsKinds = []string{"undefined", "null", "boolean", "number", "string", "object", "array", "function", "regexp", "date", "error", "trap", "trapfn", "negative", "big", "nan",
 	"regexp_neg", "error_child", "proto_null", "date_invalid", "string_obj", "args", "frozen_array", "sparse", "bound", "empty_string", "infinity", "pos_infinity", "max_int", "min_int", "tiny",
 	"hs_group", "hs_class", "hs_backslash", "hs_quant", "hs_percent", "hs_surrogate", "hs_long", "hs_json",
-	"nested_arrays", "mixed_array", "array_of_arrays_mixed", "regexp_proto", "bound_bare", "utf16_digits", "utf16_surrogate", "fn_src_break", "dollar_nn", "date_proto", "error_proto", "string_proto", "array_proto", "function_proto", "number_proto", "boolean_proto"}
+	"nested_arrays", "mixed_array", "array_of_arrays_mixed", "regexp_proto", "bound_bare", "utf16_digits", "utf16_surrogate", "fn_src_break", "dollar_nn", "date_proto", "error_proto", "string_proto", "array_proto", "function_proto", "number_proto", "boolean_proto",
+	"nonext_string_fffd", "nonext_array", "nonext_args", "sealed_fn", "frozen_string_wide", "nonext_date", "nonext_regexp"}
 
 // kinds used when two positions vary together (the full product of all kinds
 // would be 50x50 per function)
@@ -102,6 +103,13 @@ function __mk(kind){
   case 'hs_surrogate': return '\ud800x';
   case 'hs_long': return new Array(300).join('ab');
   case 'hs_json': return '{"a":[1,{"b":';
+  case 'nonext_string_fffd': return Object.preventExtensions(new String('a\ufffdb'));
+  case 'nonext_array': return Object.preventExtensions([1,,3]);
+  case 'nonext_args': return Object.preventExtensions((function(a){return arguments})(1,2));
+  case 'sealed_fn': return Object.seal(function(a){return a});
+  case 'frozen_string_wide': return Object.freeze(new String('\u4e2d\ud83d\ude00\ud800'));
+  case 'nonext_date': return Object.preventExtensions(new Date(0));
+  case 'nonext_regexp': return Object.preventExtensions(/a/g);
   case 'trap': return __mkTrap(false);
   case 'trapfn': return __mkTrap(true);
   }
